@@ -396,3 +396,21 @@ Arguments for_sem {Name Atom Op Val World Bnd FId Err} L funs block left cnd inc
 Arguments exec_stmt {Name Atom Op Val World Bnd FId Err} L funs block s c.
 Arguments exec_seq {Name Atom Op Val World Bnd FId Err} L funs block b c.
 Arguments sem {Name Atom Op Val World Bnd FId Err} L funs n b c.
+Arguments l_name_eqb {Name Atom Op Val World Bnd FId Err} l.
+Arguments l_result_name {Name Atom Op Val World Bnd FId Err} l.
+Arguments l_view_of {Name Atom Op Val World Bnd FId Err} l.
+Arguments l_bnd_val {Name Atom Op Val World Bnd FId Err} l.
+Arguments l_truth {Name Atom Op Val World Bnd FId Err} l.
+Arguments l_vnone {Name Atom Op Val World Bnd FId Err} l.
+Arguments l_vzero {Name Atom Op Val World Bnd FId Err} l.
+Arguments l_is_none {Name Atom Op Val World Bnd FId Err} l.
+Arguments l_vincr {Name Atom Op Val World Bnd FId Err} l.
+Arguments l_atom_sem {Name Atom Op Val World Bnd FId Err} l.
+Arguments l_op_sem {Name Atom Op Val World Bnd FId Err} l.
+Arguments l_op_name {Name Atom Op Val World Bnd FId Err} l.
+Arguments l_unbound {Name Atom Op Val World Bnd FId Err} l.
+Arguments l_print_out {Name Atom Op Val World Bnd FId Err} l.
+Arguments l_limit_note {Name Atom Op Val World Bnd FId Err} l.
+Arguments l_decl_note {Name Atom Op Val World Bnd FId Err} l.
+Arguments l_limit {Name Atom Op Val World Bnd FId Err} l.
+Arguments mkLang {Name Atom Op Val World Bnd FId Err}.
